@@ -198,7 +198,7 @@ def spec_reply_table(out):
     return None
 
 
-def drive(v, binary, behs, users, creds, seed, what, timeout=900, extra_params=None):
+def drive(v, binary, behs, users, creds, seed, what, timeout=3000, extra_params=None):
     """Replay behaviours on the real code, in parallel processes."""
     if not behs:
         return 0, 0, 0
@@ -291,13 +291,13 @@ def run(tier, seed, replay):
     with ThreadPoolExecutor(max_workers=4) as ex:      # at most four JVMs at a time
         # (1) design, exhaustive, no graph: short fields with every segmentation ...
         dcfg, _, _ = small_config(k, seed, 2 if big else 1)
-        fdesign = ex.submit(vlib.tlc, SPEC, "MCHandshake", "MCHandshake.cfg", dcfg, 16 if big else 8, 3000, False,
+        fdesign = ex.submit(vlib.tlc, SPEC, "MCHandshake", "MCHandshake.cfg", dcfg, 16 if big else 8, 5400, False,
                             None, None, None, (), "6g", True)
         # ... and fields at their maximum lengths with boundary segmentations
         flong = None
         if big:
             lcfg, _, _ = long_config(k, seed, 2)
-            flong = ex.submit(vlib.tlc, SPEC, "MCHandshake", "MCHandshake.cfg", lcfg, 16, 3000, False, None, None, None, (), "4g")
+            flong = ex.submit(vlib.tlc, SPEC, "MCHandshake", "MCHandshake.cfg", lcfg, 16, 5400, False, None, None, None, (), "4g")
 
         # (2) state graphs whose every edge is replayed on the real code: short fields (every cut), maximum-length
         #     fields (boundary cuts) and, in the thorough tier, two more byte concretisations of the short-field graph
@@ -305,9 +305,9 @@ def run(tier, seed, replay):
         variants = range(6) if big else [seed % 6]
         for i, var in enumerate(variants):
             c2, u2, cr2 = small_config(k, seed * 31 + i, 0, var)
-            jobs.append(("short-fields-v%d" % var, ex.submit(graph_tlc, c2, 4, 3000), u2, cr2, seed + i, 1500 if big else 0))
+            jobs.append(("short-fields-v%d" % var, ex.submit(graph_tlc, c2, 4, 5400), u2, cr2, seed + i, 1500 if big else 0))
         lq, lu, lc = long_config(k, seed, 1 if big else 0)
-        jobs.append(("max-length-fields", ex.submit(graph_tlc, lq, 8 if big else 4, 3000), lu, lc, seed, 0))
+        jobs.append(("max-length-fields", ex.submit(graph_tlc, lq, 8 if big else 4, 5400), lu, lc, seed, 0))
         gstates = gtrans = 0
         for name, fut, us, cr, sd, walks in jobs:
             g = fut.result()
